@@ -27,6 +27,7 @@ def check(ctx, tier):
     rlrules.canonical_construction(ctx, "C14.b", ctx.func(RL + "_step_subset"))
     rlrules.canonical_construction(ctx, "C14.b", ctx.func(RL + "_apply_binary_func"))
     rlrules.delete_helpers(ctx, "C14.b")
+    rlrules.boundary_arguments(ctx, "C14.b")
     slice_nonempty(ctx, tk)
     encoder(ctx, tk)
     decoder(ctx, tk)
